@@ -236,6 +236,8 @@ def hash_by_name(name):
         f = _h_fixed8
     elif name == "depthdep":
         f = _h_depthdep
+    elif name == "textonly":  # only for pools of text keys (C12 / C13)
+        f = H.hash_with_depth_int(_h_textonly_seed)
     elif name == "falsy_salted":
         f = FalsyCallable(_h_salted)
     elif name == "fnv_first":
@@ -250,6 +252,24 @@ def hash_by_name(name):
         raise ValueError(name)
     _CACHE[name] = f
     return f
+
+
+def fresh_hash(name):
+    """the named strategy as a NEW function object (a closure created per call, as user code that builds its strategy inside a
+    function does): objects of earlier cases have been garbage-collected by then and their addresses are reused"""
+    f = hash_by_name(name)
+    if f is None or isinstance(f, FalsyCallable):
+        return f
+
+    def strategy(key, depth=1, _f=f):
+        return _f(key, depth)
+    return strategy
+
+
+def _h_textonly_seed(key, seed=0):
+    # the README's custom-hash example exactly as printed: text keys only (bytes have no .encode)
+    val = int(hashlib.sha512(key.encode("utf-8")).hexdigest(), 16) + seed
+    return val % (1 << 64)
 
 
 GOOD_HASHES = ["default", "fnv", "md5", "sha256", "dec_int", "dec_bytes", "salted", "wide", "signed", "fnv_first", "dec_fnv", "falsy_salted", "depthdep"]
